@@ -117,7 +117,7 @@ package rib
 //@   && (forall i: uint64 :: h.refCounts.NextHop[i] <= 18446744073709551615 && h.refCounts.NextHopGroup[i] <= 18446744073709551615
 //@       && 0 <= h.refCounts.NextHop[i] && 0 <= h.refCounts.NextHopGroup[i])
 //@   && (forall g in dom(h.r.Afts.NextHopGroup) :: h.r.Afts.NextHopGroup[g] != nil ==> groupWF(h.r.Afts.NextHopGroup[g]))
-//@   && tablesNonNil(h.r.Afts)
+//@   && tablesNonNil(h.r.Afts) && keysOK(h.r.Afts)
 //@ pred nilOrAllocated(x Int) = x == 0 || (0 < x && x < top)
 //@ pred tablesAllocated(A *aft.Afts) = nilOrAllocated(A.Ipv4Entry) && nilOrAllocated(A.Ipv6Entry) && nilOrAllocated(A.LabelEntry)
 //@   && nilOrAllocated(A.NextHopGroup) && nilOrAllocated(A.NextHop)
@@ -282,12 +282,17 @@ package rib
 //@ trusted the ygot struct -> gNMI notifications -> proto pipeline (ygot.TogNMINotifications, protomap.ProtoFromPaths) is reflection over generated schemas and outside the verifier's reach; it writes only into pb, which every caller allocates immediately before the call and whose content no contract refers to (entry payload is abstract: field-for-field payload fidelity is NOT decided)
 //@ assigns nothing
 
-// keysOK: every installed entry carries the key it is filed under (what candidateRIB + MergeStructInto establish).
-//@ pred keysOK(A *aft.Afts) = (forall k in dom(A.Ipv4Entry) :: A.Ipv4Entry[k] != nil && A.Ipv4Entry[k].Prefix != nil && *A.Ipv4Entry[k].Prefix == k)
-//@   && (forall k in dom(A.Ipv6Entry) :: A.Ipv6Entry[k] != nil && A.Ipv6Entry[k].Prefix != nil && *A.Ipv6Entry[k].Prefix == k)
-//@   && (forall k in dom(A.LabelEntry) :: A.LabelEntry[k] != nil && A.LabelEntry[k].Label == k && istype(k, aft.UnionUint32))
-//@   && (forall k in dom(A.NextHopGroup) :: A.NextHopGroup[k] != nil && A.NextHopGroup[k].Id != nil && *A.NextHopGroup[k].Id == k)
-//@   && (forall k in dom(A.NextHop) :: A.NextHop[k] != nil && A.NextHop[k].Index != nil && *A.NextHop[k].Index == k)
+//@ pred keyed_v4(E *aft.Afts_Ipv4Entry, k string) = E != nil && E.Prefix != nil && *E.Prefix == k
+//@ pred keyed_v6(E *aft.Afts_Ipv6Entry, k string) = E != nil && E.Prefix != nil && *E.Prefix == k
+//@ pred keyed_mpls(E *aft.Afts_LabelEntry, k aft.Afts_LabelEntry_Label_Union) = E != nil && E.Label == k && istype(k, aft.UnionUint32)
+//@ pred keyed_nhg(E *aft.Afts_NextHopGroup, k uint64) = E != nil && E.Id != nil && *E.Id == k
+//@ pred keyed_nh(E *aft.Afts_NextHop, k uint64) = E != nil && E.Index != nil && *E.Index == k
+// keysOK: every installed entry carries the key it is filed under (established by candidateRIB + MergeStructInto, both assumed; preserved by every table operation, proved).
+//@ pred keysOK(A *aft.Afts) = (forall k in dom(A.Ipv4Entry) :: keyed_v4(A.Ipv4Entry[k], k))
+//@   && (forall k in dom(A.Ipv6Entry) :: keyed_v6(A.Ipv6Entry[k], k))
+//@   && (forall k in dom(A.LabelEntry) :: keyed_mpls(A.LabelEntry[k], k))
+//@   && (forall k in dom(A.NextHopGroup) :: keyed_nhg(A.NextHopGroup[k], k))
+//@   && (forall k in dom(A.NextHop) :: keyed_nh(A.NextHop[k], k))
 //@ pred msgBase(m *spb.GetResponse) = allocated(m) && len(m.Entry) == 1 && allocated(m.Entry[0])
 //@ pred ribWFk(R *aft.RIB) = R != nil && R.Afts != nil && tablesNonNil(R.Afts) && keysOK(R.Afts)
 //@ pred ribKeysOK(r *RIB) = forall n in dom(r.niRIB) :: keysOK(r.niRIB[n].r.Afts)
@@ -351,7 +356,7 @@ package rib
 // whose key is installed (nothing else); every installed entry of a selected table has a
 // message (complete); no two messages have the same kind and key (one each).
 //@ unit RIBHolder.GetRIB
-//@ requires holderWF(r) && keysOK(r.r.Afts) && held(r.mu) == 0
+//@ requires holderWF(r) && held(r.mu) == 0
 //@ ensures[nothing-else] forall j in old(len(sent(msgCh)))..len(sent(msgCh)) :: ((old(filter[spb.AFTType_ALL]) || old(filter[spb.AFTType_IPV4])) && msg_v4(sent(msgCh)[j], r.name) && key_v4(sent(msgCh)[j]) in dom(r.r.Afts.Ipv4Entry)) || ((old(filter[spb.AFTType_ALL]) || old(filter[spb.AFTType_IPV6])) && msg_v6(sent(msgCh)[j], r.name) && key_v6(sent(msgCh)[j]) in dom(r.r.Afts.Ipv6Entry)) || ((old(filter[spb.AFTType_ALL]) || old(filter[spb.AFTType_MPLS])) && msg_mpls(sent(msgCh)[j], r.name) && key_mpls(sent(msgCh)[j]) in dom(r.r.Afts.LabelEntry)) || ((old(filter[spb.AFTType_ALL]) || old(filter[spb.AFTType_NEXTHOP_GROUP])) && msg_nhg(sent(msgCh)[j], r.name) && key_nhg(sent(msgCh)[j]) in dom(r.r.Afts.NextHopGroup)) || ((old(filter[spb.AFTType_ALL]) || old(filter[spb.AFTType_NEXTHOP])) && msg_nh(sent(msgCh)[j], r.name) && key_nh(sent(msgCh)[j]) in dom(r.r.Afts.NextHop))
 //@ ensures[complete-v4] result0 == nil && recvd(stopCh) == old(recvd(stopCh)) && (old(filter[spb.AFTType_ALL]) || old(filter[spb.AFTType_IPV4])) ==> forall k in dom(r.r.Afts.Ipv4Entry) :: old(len(sent(msgCh))) <= getpos_v4[k] && getpos_v4[k] < len(sent(msgCh)) && msg_v4(sent(msgCh)[getpos_v4[k]], r.name) && key_v4(sent(msgCh)[getpos_v4[k]]) == k
 //@ ensures[no-dup-v4] forall i in old(len(sent(msgCh)))..len(sent(msgCh)), j in old(len(sent(msgCh)))..len(sent(msgCh)) :: i != j && msg_v4(sent(msgCh)[i], r.name) && msg_v4(sent(msgCh)[j], r.name) ==> key_v4(sent(msgCh)[i]) != key_v4(sent(msgCh)[j])
@@ -372,18 +377,18 @@ package rib
 //@ ensures[kind-nh] forall j in old(len(sent(msgCh)))..len(sent(msgCh)) :: istype(sent(msgCh)[j].Entry[0].Entry, *spb.AFTEntry_NextHop) ==> (old(filter[spb.AFTType_ALL]) || old(filter[spb.AFTType_NEXTHOP])) && msg_nh(sent(msgCh)[j], r.name) && key_nh(sent(msgCh)[j]) in dom(r.r.Afts.NextHop)
 //@ ensures[unselected-empty] !((old(filter[spb.AFTType_ALL]) || old(filter[spb.AFTType_IPV4])) || (old(filter[spb.AFTType_ALL]) || old(filter[spb.AFTType_IPV6])) || (old(filter[spb.AFTType_ALL]) || old(filter[spb.AFTType_MPLS])) || (old(filter[spb.AFTType_ALL]) || old(filter[spb.AFTType_NEXTHOP_GROUP])) || (old(filter[spb.AFTType_ALL]) || old(filter[spb.AFTType_NEXTHOP]))) ==> len(sent(msgCh)) == old(len(sent(msgCh))) && result0 == nil
 //@ ensures[appends] len(sent(msgCh)) >= old(len(sent(msgCh))) && (forall j in 0..old(len(sent(msgCh))) :: sent(msgCh)[j] == old(sent(msgCh)[j]))
-//@ at "Ipv4: p," ghost getpos_v4 = store(getpos_v4, pfx, len(sent(msgCh)))
-//@ at "Ipv6: p," ghost getpos_v6 = store(getpos_v6, pfx, len(sent(msgCh)))
-//@ at "Mpls: p," ghost getpos_mpls = store(getpos_mpls, lbl, len(sent(msgCh)))
-//@ at "NextHopGroup: p," ghost getpos_nhg = store(getpos_nhg, index, len(sent(msgCh)))
-//@ at "NextHop: p," ghost getpos_nh = store(getpos_nh, id, len(sent(msgCh)))
-//@ loop 1 at "range r.r.Afts.Ipv4Entry" invariant holderWF(r) && keysOK(r.r.Afts) && len(sent(msgCh)) >= old(len(sent(msgCh))) && recvd(stopCh) == old(recvd(stopCh)) && held(r.mu) == 1
+//@ at "Ipv4: p," ghost getpos_v4 = store(getpos_v4, rangekey, len(sent(msgCh)))
+//@ at "Ipv6: p," ghost getpos_v6 = store(getpos_v6, rangekey, len(sent(msgCh)))
+//@ at "Mpls: p," ghost getpos_mpls = store(getpos_mpls, rangekey, len(sent(msgCh)))
+//@ at "NextHopGroup: p," ghost getpos_nhg = store(getpos_nhg, rangekey, len(sent(msgCh)))
+//@ at "NextHop: p," ghost getpos_nh = store(getpos_nh, rangekey, len(sent(msgCh)))
+//@ loop 1 at "range r.r.Afts.Ipv4Entry" invariant holderWF(r) && len(sent(msgCh)) >= old(len(sent(msgCh))) && recvd(stopCh) == old(recvd(stopCh)) && held(r.mu) == 1
 //@ loop 1 invariant (filter[spb.AFTType_IPV4] <==> (old(filter[spb.AFTType_ALL]) || old(filter[spb.AFTType_IPV4]))) && (filter[spb.AFTType_IPV6] <==> (old(filter[spb.AFTType_ALL]) || old(filter[spb.AFTType_IPV6]))) && (filter[spb.AFTType_MPLS] <==> (old(filter[spb.AFTType_ALL]) || old(filter[spb.AFTType_MPLS]))) && (filter[spb.AFTType_NEXTHOP_GROUP] <==> (old(filter[spb.AFTType_ALL]) || old(filter[spb.AFTType_NEXTHOP_GROUP]))) && (filter[spb.AFTType_NEXTHOP] <==> (old(filter[spb.AFTType_ALL]) || old(filter[spb.AFTType_NEXTHOP])))
 //@ loop 1 invariant forall j in 0..old(len(sent(msgCh))) :: sent(msgCh)[j] == old(sent(msgCh)[j])
 //@ loop 1 invariant forall j in old(len(sent(msgCh)))..len(sent(msgCh)) :: ((old(filter[spb.AFTType_ALL]) || old(filter[spb.AFTType_IPV4])) && msg_v4(sent(msgCh)[j], r.name) && key_v4(sent(msgCh)[j]) in dom(r.r.Afts.Ipv4Entry) && key_v4(sent(msgCh)[j]) in visited)
 //@ loop 1 invariant forall k in visited :: old(len(sent(msgCh))) <= getpos_v4[k] && getpos_v4[k] < len(sent(msgCh)) && msg_v4(sent(msgCh)[getpos_v4[k]], r.name) && key_v4(sent(msgCh)[getpos_v4[k]]) == k
 //@ loop 1 invariant forall i in old(len(sent(msgCh)))..len(sent(msgCh)), j in old(len(sent(msgCh)))..len(sent(msgCh)) :: i != j && msg_v4(sent(msgCh)[i], r.name) && msg_v4(sent(msgCh)[j], r.name) ==> key_v4(sent(msgCh)[i]) != key_v4(sent(msgCh)[j])
-//@ loop 2 at "range r.r.Afts.Ipv6Entry" invariant holderWF(r) && keysOK(r.r.Afts) && len(sent(msgCh)) >= old(len(sent(msgCh))) && recvd(stopCh) == old(recvd(stopCh)) && held(r.mu) == 1
+//@ loop 2 at "range r.r.Afts.Ipv6Entry" invariant holderWF(r) && len(sent(msgCh)) >= old(len(sent(msgCh))) && recvd(stopCh) == old(recvd(stopCh)) && held(r.mu) == 1
 //@ loop 2 invariant (filter[spb.AFTType_IPV4] <==> (old(filter[spb.AFTType_ALL]) || old(filter[spb.AFTType_IPV4]))) && (filter[spb.AFTType_IPV6] <==> (old(filter[spb.AFTType_ALL]) || old(filter[spb.AFTType_IPV6]))) && (filter[spb.AFTType_MPLS] <==> (old(filter[spb.AFTType_ALL]) || old(filter[spb.AFTType_MPLS]))) && (filter[spb.AFTType_NEXTHOP_GROUP] <==> (old(filter[spb.AFTType_ALL]) || old(filter[spb.AFTType_NEXTHOP_GROUP]))) && (filter[spb.AFTType_NEXTHOP] <==> (old(filter[spb.AFTType_ALL]) || old(filter[spb.AFTType_NEXTHOP])))
 //@ loop 2 invariant forall j in 0..old(len(sent(msgCh))) :: sent(msgCh)[j] == old(sent(msgCh)[j])
 //@ loop 2 invariant forall j in old(len(sent(msgCh)))..len(sent(msgCh)) :: ((old(filter[spb.AFTType_ALL]) || old(filter[spb.AFTType_IPV4])) && msg_v4(sent(msgCh)[j], r.name) && key_v4(sent(msgCh)[j]) in dom(r.r.Afts.Ipv4Entry)) || ((old(filter[spb.AFTType_ALL]) || old(filter[spb.AFTType_IPV6])) && msg_v6(sent(msgCh)[j], r.name) && key_v6(sent(msgCh)[j]) in dom(r.r.Afts.Ipv6Entry) && key_v6(sent(msgCh)[j]) in visited)
@@ -391,7 +396,7 @@ package rib
 //@ loop 2 invariant forall k in visited :: old(len(sent(msgCh))) <= getpos_v6[k] && getpos_v6[k] < len(sent(msgCh)) && msg_v6(sent(msgCh)[getpos_v6[k]], r.name) && key_v6(sent(msgCh)[getpos_v6[k]]) == k
 //@ loop 2 invariant forall i in old(len(sent(msgCh)))..len(sent(msgCh)), j in old(len(sent(msgCh)))..len(sent(msgCh)) :: i != j && msg_v4(sent(msgCh)[i], r.name) && msg_v4(sent(msgCh)[j], r.name) ==> key_v4(sent(msgCh)[i]) != key_v4(sent(msgCh)[j])
 //@ loop 2 invariant forall i in old(len(sent(msgCh)))..len(sent(msgCh)), j in old(len(sent(msgCh)))..len(sent(msgCh)) :: i != j && msg_v6(sent(msgCh)[i], r.name) && msg_v6(sent(msgCh)[j], r.name) ==> key_v6(sent(msgCh)[i]) != key_v6(sent(msgCh)[j])
-//@ loop 3 at "range r.r.Afts.LabelEntry" invariant holderWF(r) && keysOK(r.r.Afts) && len(sent(msgCh)) >= old(len(sent(msgCh))) && recvd(stopCh) == old(recvd(stopCh)) && held(r.mu) == 1
+//@ loop 3 at "range r.r.Afts.LabelEntry" invariant holderWF(r) && len(sent(msgCh)) >= old(len(sent(msgCh))) && recvd(stopCh) == old(recvd(stopCh)) && held(r.mu) == 1
 //@ loop 3 invariant (filter[spb.AFTType_IPV4] <==> (old(filter[spb.AFTType_ALL]) || old(filter[spb.AFTType_IPV4]))) && (filter[spb.AFTType_IPV6] <==> (old(filter[spb.AFTType_ALL]) || old(filter[spb.AFTType_IPV6]))) && (filter[spb.AFTType_MPLS] <==> (old(filter[spb.AFTType_ALL]) || old(filter[spb.AFTType_MPLS]))) && (filter[spb.AFTType_NEXTHOP_GROUP] <==> (old(filter[spb.AFTType_ALL]) || old(filter[spb.AFTType_NEXTHOP_GROUP]))) && (filter[spb.AFTType_NEXTHOP] <==> (old(filter[spb.AFTType_ALL]) || old(filter[spb.AFTType_NEXTHOP])))
 //@ loop 3 invariant forall j in 0..old(len(sent(msgCh))) :: sent(msgCh)[j] == old(sent(msgCh)[j])
 //@ loop 3 invariant forall j in old(len(sent(msgCh)))..len(sent(msgCh)) :: ((old(filter[spb.AFTType_ALL]) || old(filter[spb.AFTType_IPV4])) && msg_v4(sent(msgCh)[j], r.name) && key_v4(sent(msgCh)[j]) in dom(r.r.Afts.Ipv4Entry)) || ((old(filter[spb.AFTType_ALL]) || old(filter[spb.AFTType_IPV6])) && msg_v6(sent(msgCh)[j], r.name) && key_v6(sent(msgCh)[j]) in dom(r.r.Afts.Ipv6Entry)) || ((old(filter[spb.AFTType_ALL]) || old(filter[spb.AFTType_MPLS])) && msg_mpls(sent(msgCh)[j], r.name) && key_mpls(sent(msgCh)[j]) in dom(r.r.Afts.LabelEntry) && key_mpls(sent(msgCh)[j]) in visited)
@@ -401,7 +406,7 @@ package rib
 //@ loop 3 invariant forall i in old(len(sent(msgCh)))..len(sent(msgCh)), j in old(len(sent(msgCh)))..len(sent(msgCh)) :: i != j && msg_v4(sent(msgCh)[i], r.name) && msg_v4(sent(msgCh)[j], r.name) ==> key_v4(sent(msgCh)[i]) != key_v4(sent(msgCh)[j])
 //@ loop 3 invariant forall i in old(len(sent(msgCh)))..len(sent(msgCh)), j in old(len(sent(msgCh)))..len(sent(msgCh)) :: i != j && msg_v6(sent(msgCh)[i], r.name) && msg_v6(sent(msgCh)[j], r.name) ==> key_v6(sent(msgCh)[i]) != key_v6(sent(msgCh)[j])
 //@ loop 3 invariant forall i in old(len(sent(msgCh)))..len(sent(msgCh)), j in old(len(sent(msgCh)))..len(sent(msgCh)) :: i != j && msg_mpls(sent(msgCh)[i], r.name) && msg_mpls(sent(msgCh)[j], r.name) ==> key_mpls(sent(msgCh)[i]) != key_mpls(sent(msgCh)[j])
-//@ loop 4 at "range r.r.Afts.NextHopGroup" invariant holderWF(r) && keysOK(r.r.Afts) && len(sent(msgCh)) >= old(len(sent(msgCh))) && recvd(stopCh) == old(recvd(stopCh)) && held(r.mu) == 1
+//@ loop 4 at "range r.r.Afts.NextHopGroup" invariant holderWF(r) && len(sent(msgCh)) >= old(len(sent(msgCh))) && recvd(stopCh) == old(recvd(stopCh)) && held(r.mu) == 1
 //@ loop 4 invariant (filter[spb.AFTType_IPV4] <==> (old(filter[spb.AFTType_ALL]) || old(filter[spb.AFTType_IPV4]))) && (filter[spb.AFTType_IPV6] <==> (old(filter[spb.AFTType_ALL]) || old(filter[spb.AFTType_IPV6]))) && (filter[spb.AFTType_MPLS] <==> (old(filter[spb.AFTType_ALL]) || old(filter[spb.AFTType_MPLS]))) && (filter[spb.AFTType_NEXTHOP_GROUP] <==> (old(filter[spb.AFTType_ALL]) || old(filter[spb.AFTType_NEXTHOP_GROUP]))) && (filter[spb.AFTType_NEXTHOP] <==> (old(filter[spb.AFTType_ALL]) || old(filter[spb.AFTType_NEXTHOP])))
 //@ loop 4 invariant forall j in 0..old(len(sent(msgCh))) :: sent(msgCh)[j] == old(sent(msgCh)[j])
 //@ loop 4 invariant forall j in old(len(sent(msgCh)))..len(sent(msgCh)) :: ((old(filter[spb.AFTType_ALL]) || old(filter[spb.AFTType_IPV4])) && msg_v4(sent(msgCh)[j], r.name) && key_v4(sent(msgCh)[j]) in dom(r.r.Afts.Ipv4Entry)) || ((old(filter[spb.AFTType_ALL]) || old(filter[spb.AFTType_IPV6])) && msg_v6(sent(msgCh)[j], r.name) && key_v6(sent(msgCh)[j]) in dom(r.r.Afts.Ipv6Entry)) || ((old(filter[spb.AFTType_ALL]) || old(filter[spb.AFTType_MPLS])) && msg_mpls(sent(msgCh)[j], r.name) && key_mpls(sent(msgCh)[j]) in dom(r.r.Afts.LabelEntry)) || ((old(filter[spb.AFTType_ALL]) || old(filter[spb.AFTType_NEXTHOP_GROUP])) && msg_nhg(sent(msgCh)[j], r.name) && key_nhg(sent(msgCh)[j]) in dom(r.r.Afts.NextHopGroup) && key_nhg(sent(msgCh)[j]) in visited)
@@ -413,7 +418,7 @@ package rib
 //@ loop 4 invariant forall i in old(len(sent(msgCh)))..len(sent(msgCh)), j in old(len(sent(msgCh)))..len(sent(msgCh)) :: i != j && msg_v6(sent(msgCh)[i], r.name) && msg_v6(sent(msgCh)[j], r.name) ==> key_v6(sent(msgCh)[i]) != key_v6(sent(msgCh)[j])
 //@ loop 4 invariant forall i in old(len(sent(msgCh)))..len(sent(msgCh)), j in old(len(sent(msgCh)))..len(sent(msgCh)) :: i != j && msg_mpls(sent(msgCh)[i], r.name) && msg_mpls(sent(msgCh)[j], r.name) ==> key_mpls(sent(msgCh)[i]) != key_mpls(sent(msgCh)[j])
 //@ loop 4 invariant forall i in old(len(sent(msgCh)))..len(sent(msgCh)), j in old(len(sent(msgCh)))..len(sent(msgCh)) :: i != j && msg_nhg(sent(msgCh)[i], r.name) && msg_nhg(sent(msgCh)[j], r.name) ==> key_nhg(sent(msgCh)[i]) != key_nhg(sent(msgCh)[j])
-//@ loop 5 at "range r.r.Afts.NextHop" invariant holderWF(r) && keysOK(r.r.Afts) && len(sent(msgCh)) >= old(len(sent(msgCh))) && recvd(stopCh) == old(recvd(stopCh)) && held(r.mu) == 1
+//@ loop 5 at "range r.r.Afts.NextHop" invariant holderWF(r) && len(sent(msgCh)) >= old(len(sent(msgCh))) && recvd(stopCh) == old(recvd(stopCh)) && held(r.mu) == 1
 //@ loop 5 invariant (filter[spb.AFTType_IPV4] <==> (old(filter[spb.AFTType_ALL]) || old(filter[spb.AFTType_IPV4]))) && (filter[spb.AFTType_IPV6] <==> (old(filter[spb.AFTType_ALL]) || old(filter[spb.AFTType_IPV6]))) && (filter[spb.AFTType_MPLS] <==> (old(filter[spb.AFTType_ALL]) || old(filter[spb.AFTType_MPLS]))) && (filter[spb.AFTType_NEXTHOP_GROUP] <==> (old(filter[spb.AFTType_ALL]) || old(filter[spb.AFTType_NEXTHOP_GROUP]))) && (filter[spb.AFTType_NEXTHOP] <==> (old(filter[spb.AFTType_ALL]) || old(filter[spb.AFTType_NEXTHOP])))
 //@ loop 5 invariant forall j in 0..old(len(sent(msgCh))) :: sent(msgCh)[j] == old(sent(msgCh)[j])
 //@ loop 5 invariant forall j in old(len(sent(msgCh)))..len(sent(msgCh)) :: ((old(filter[spb.AFTType_ALL]) || old(filter[spb.AFTType_IPV4])) && msg_v4(sent(msgCh)[j], r.name) && key_v4(sent(msgCh)[j]) in dom(r.r.Afts.Ipv4Entry)) || ((old(filter[spb.AFTType_ALL]) || old(filter[spb.AFTType_IPV6])) && msg_v6(sent(msgCh)[j], r.name) && key_v6(sent(msgCh)[j]) in dom(r.r.Afts.Ipv6Entry)) || ((old(filter[spb.AFTType_ALL]) || old(filter[spb.AFTType_MPLS])) && msg_mpls(sent(msgCh)[j], r.name) && key_mpls(sent(msgCh)[j]) in dom(r.r.Afts.LabelEntry)) || ((old(filter[spb.AFTType_ALL]) || old(filter[spb.AFTType_NEXTHOP_GROUP])) && msg_nhg(sent(msgCh)[j], r.name) && key_nhg(sent(msgCh)[j]) in dom(r.r.Afts.NextHopGroup)) || ((old(filter[spb.AFTType_ALL]) || old(filter[spb.AFTType_NEXTHOP])) && msg_nh(sent(msgCh)[j], r.name) && key_nh(sent(msgCh)[j]) in dom(r.r.Afts.NextHop) && key_nh(sent(msgCh)[j]) in visited)
@@ -450,6 +455,7 @@ package rib
 //@ requires holderWF(r) && newRIB != nil && newRIB.Afts != nil
 //@ requires[cand] candOnly_v4(newRIB.Afts, pfx)
 //@ requires[separate] separateAfts(newRIB.Afts, r.r.Afts)
+//@ requires[cand-keyed] keyed_v4(newRIB.Afts.Ipv4Entry[pfx], pfx)
 //@ ensures[ok] result1 == nil
 //@ ensures[implicit] result0 <==> pfx in old(dom(r.r.Afts.Ipv4Entry))
 //@ ensures[installed] pfx in dom(newRIB.Afts.Ipv4Entry) && pfx in dom(r.r.Afts.Ipv4Entry) && r.r.Afts.Ipv4Entry[pfx] != nil
@@ -466,6 +472,7 @@ package rib
 //@ requires holderWF(r) && newRIB != nil && newRIB.Afts != nil
 //@ requires[cand] candOnly_v6(newRIB.Afts, pfx)
 //@ requires[separate] separateAfts(newRIB.Afts, r.r.Afts)
+//@ requires[cand-keyed] keyed_v6(newRIB.Afts.Ipv6Entry[pfx], pfx)
 //@ ensures[ok] result1 == nil
 //@ ensures[implicit] result0 <==> pfx in old(dom(r.r.Afts.Ipv6Entry))
 //@ ensures[installed] pfx in dom(newRIB.Afts.Ipv6Entry) && pfx in dom(r.r.Afts.Ipv6Entry) && r.r.Afts.Ipv6Entry[pfx] != nil
@@ -482,6 +489,7 @@ package rib
 //@ requires holderWF(r) && newRIB != nil && newRIB.Afts != nil
 //@ requires[cand] candOnly_mpls(newRIB.Afts, boxed(aft.UnionUint32, label))
 //@ requires[separate] separateAfts(newRIB.Afts, r.r.Afts)
+//@ requires[cand-keyed] keyed_mpls(newRIB.Afts.LabelEntry[boxed(aft.UnionUint32, label)], boxed(aft.UnionUint32, label))
 //@ ensures[ok] result1 == nil
 //@ ensures[implicit] result0 <==> boxed(aft.UnionUint32, label) in old(dom(r.r.Afts.LabelEntry))
 //@ ensures[installed] boxed(aft.UnionUint32, label) in dom(newRIB.Afts.LabelEntry) && boxed(aft.UnionUint32, label) in dom(r.r.Afts.LabelEntry) && r.r.Afts.LabelEntry[boxed(aft.UnionUint32, label)] != nil
@@ -498,6 +506,7 @@ package rib
 //@ requires holderWF(r) && newRIB != nil && newRIB.Afts != nil
 //@ requires[cand] candOnly_nhg(newRIB.Afts, ID)
 //@ requires[separate] separateAfts(newRIB.Afts, r.r.Afts)
+//@ requires[cand-keyed] keyed_nhg(newRIB.Afts.NextHopGroup[ID], ID)
 //@ requires[cand-wf] groupWF(newRIB.Afts.NextHopGroup[ID])
 //@ assert at "return wasReplace, nil" [lemma-new-group-wf] groupWF(r.r.Afts.NextHopGroup[ID])
 //@ assert at "return wasReplace, nil" [lemma-others-kept] othersKept_nhg(r.r.Afts, ID)
@@ -519,6 +528,7 @@ package rib
 //@ requires holderWF(r) && newRIB != nil && newRIB.Afts != nil
 //@ requires[cand] candOnly_nh(newRIB.Afts, index)
 //@ requires[separate] separateAfts(newRIB.Afts, r.r.Afts)
+//@ requires[cand-keyed] keyed_nh(newRIB.Afts.NextHop[index], index)
 //@ ensures[ok] result1 == nil
 //@ ensures[implicit] result0 <==> index in old(dom(r.r.Afts.NextHop))
 //@ ensures[installed] index in dom(newRIB.Afts.NextHop) && index in dom(r.r.Afts.NextHop) && r.r.Afts.NextHop[index] != nil
@@ -558,15 +568,15 @@ package rib
 //@ ensures[fresh-nhg] result1 == nil ==> result0.Afts.NextHopGroup == nil || fresh(result0.Afts.NextHopGroup)
 //@ ensures[fresh-nh] result1 == nil ==> result0.Afts.NextHop == nil || fresh(result0.Afts.NextHop)
 //@ ensures[v4] result1 == nil && len(a.Ipv4Entry) == 1 && a.Ipv4Entry[0] != nil && len(a.Ipv6Entry) == 0 && len(a.LabelEntry) == 0 && len(a.NextHopGroup) == 0 && len(a.NextHop) == 0 ==> candOnly_v4(result0.Afts, a.Ipv4Entry[0].GetPrefix())
-//@   && fresh(result0.Afts.Ipv4Entry[a.Ipv4Entry[0].GetPrefix()]) && fromProto_v4(result0.Afts.Ipv4Entry[a.Ipv4Entry[0].GetPrefix()], a.Ipv4Entry[0])
+//@   && fresh(result0.Afts.Ipv4Entry[a.Ipv4Entry[0].GetPrefix()]) && fromProto_v4(result0.Afts.Ipv4Entry[a.Ipv4Entry[0].GetPrefix()], a.Ipv4Entry[0]) && keyed_v4(result0.Afts.Ipv4Entry[a.Ipv4Entry[0].GetPrefix()], a.Ipv4Entry[0].GetPrefix())
 //@ ensures[v6] result1 == nil && len(a.Ipv6Entry) == 1 && a.Ipv6Entry[0] != nil && len(a.Ipv4Entry) == 0 && len(a.LabelEntry) == 0 && len(a.NextHopGroup) == 0 && len(a.NextHop) == 0 ==> candOnly_v6(result0.Afts, a.Ipv6Entry[0].GetPrefix())
-//@   && fresh(result0.Afts.Ipv6Entry[a.Ipv6Entry[0].GetPrefix()]) && fromProto_v6(result0.Afts.Ipv6Entry[a.Ipv6Entry[0].GetPrefix()], a.Ipv6Entry[0])
+//@   && fresh(result0.Afts.Ipv6Entry[a.Ipv6Entry[0].GetPrefix()]) && fromProto_v6(result0.Afts.Ipv6Entry[a.Ipv6Entry[0].GetPrefix()], a.Ipv6Entry[0]) && keyed_v6(result0.Afts.Ipv6Entry[a.Ipv6Entry[0].GetPrefix()], a.Ipv6Entry[0].GetPrefix())
 //@ ensures[mpls] result1 == nil && len(a.LabelEntry) == 1 && a.LabelEntry[0] != nil && len(a.Ipv4Entry) == 0 && len(a.Ipv6Entry) == 0 && len(a.NextHopGroup) == 0 && len(a.NextHop) == 0 ==> candOnly_mpls(result0.Afts, boxed(aft.UnionUint32, a.LabelEntry[0].GetLabelUint64()))
-//@   && fresh(result0.Afts.LabelEntry[boxed(aft.UnionUint32, a.LabelEntry[0].GetLabelUint64())]) && fromProto_mpls(result0.Afts.LabelEntry[boxed(aft.UnionUint32, a.LabelEntry[0].GetLabelUint64())], a.LabelEntry[0]) && a.LabelEntry[0].GetLabelUint64() < 4294967296 && istype(a.LabelEntry[0].Label, *aftpb.Afts_LabelEntryKey_LabelUint64)
+//@   && fresh(result0.Afts.LabelEntry[boxed(aft.UnionUint32, a.LabelEntry[0].GetLabelUint64())]) && fromProto_mpls(result0.Afts.LabelEntry[boxed(aft.UnionUint32, a.LabelEntry[0].GetLabelUint64())], a.LabelEntry[0]) && keyed_mpls(result0.Afts.LabelEntry[boxed(aft.UnionUint32, a.LabelEntry[0].GetLabelUint64())], boxed(aft.UnionUint32, a.LabelEntry[0].GetLabelUint64())) && a.LabelEntry[0].GetLabelUint64() < 4294967296 && istype(a.LabelEntry[0].Label, *aftpb.Afts_LabelEntryKey_LabelUint64)
 //@ ensures[nhg] result1 == nil && len(a.NextHopGroup) == 1 && a.NextHopGroup[0] != nil && len(a.Ipv4Entry) == 0 && len(a.Ipv6Entry) == 0 && len(a.LabelEntry) == 0 && len(a.NextHop) == 0 ==> candOnly_nhg(result0.Afts, a.NextHopGroup[0].GetId())
-//@   && fresh(result0.Afts.NextHopGroup[a.NextHopGroup[0].GetId()]) && fromProto_nhg(result0.Afts.NextHopGroup[a.NextHopGroup[0].GetId()], a.NextHopGroup[0]) && a.NextHopGroup[0].GetNextHopGroup() != nil && groupWF(result0.Afts.NextHopGroup[a.NextHopGroup[0].GetId()])
+//@   && fresh(result0.Afts.NextHopGroup[a.NextHopGroup[0].GetId()]) && fromProto_nhg(result0.Afts.NextHopGroup[a.NextHopGroup[0].GetId()], a.NextHopGroup[0]) && keyed_nhg(result0.Afts.NextHopGroup[a.NextHopGroup[0].GetId()], a.NextHopGroup[0].GetId()) && a.NextHopGroup[0].GetNextHopGroup() != nil && groupWF(result0.Afts.NextHopGroup[a.NextHopGroup[0].GetId()])
 //@ ensures[nh] result1 == nil && len(a.NextHop) == 1 && a.NextHop[0] != nil && len(a.Ipv4Entry) == 0 && len(a.Ipv6Entry) == 0 && len(a.LabelEntry) == 0 && len(a.NextHopGroup) == 0 ==> candOnly_nh(result0.Afts, a.NextHop[0].GetIndex())
-//@   && fresh(result0.Afts.NextHop[a.NextHop[0].GetIndex()]) && fromProto_nh(result0.Afts.NextHop[a.NextHop[0].GetIndex()], a.NextHop[0])
+//@   && fresh(result0.Afts.NextHop[a.NextHop[0].GetIndex()]) && fromProto_nh(result0.Afts.NextHop[a.NextHop[0].GetIndex()], a.NextHop[0]) && keyed_nh(result0.Afts.NextHop[a.NextHop[0].GetIndex()], a.NextHop[0].GetIndex())
 //@ assigns nothing
 //@ props C01 C02 C07
 
@@ -988,15 +998,15 @@ package rib
 //@ assert at "has unresolved dependencies" [failed-no-trace] keptAll(niR.r.Afts) && r.disableForwardReferences
 //@ assert at "r.addPending(op.GetId()" [held-no-trace] keptAll(niR.r.Afts) && !r.disableForwardReferences
 //@ loop 1 modular
-//@ at "r.addEntryInternal(" ghost retried = add(retried, e.op.GetId())
+//@ at "r.addEntryInternal(" ghost retried = add(retried, ranged[loopi-1].op.GetId())
 //@ at "r.addEntryInternal(" ghost oksBefore = *oks
 //@ at "r.addEntryInternal(" ghost failsBefore = *fails
 //@ at "r.addEntryInternal(" ghost pendBefore = dom(r.pendingEntries)
 //@ at "r.addEntryInternal(" ghost stackBefore = dom(installStack)
 //@ at "r.addEntryInternal(" ghost stackValsBefore = vals(installStack)
 //@ assert at "if err != nil {" [lemma-prefix] prefixKept(*oks, oksBefore) && prefixKept(*fails, failsBefore) && prefixKept(oksBefore, old(*oks)) && prefixKept(failsBefore, old(*fails))
-//@ assert at "if err != nil {" [lemma-held] (forall k in pendBefore :: k in old(dom(r.pendingEntries))) && e.op.GetId() in old(dom(r.pendingEntries))
-//@ assert at "if err != nil {" [lemma-new-known] newIDsKnown(*oks, len(oksBefore), e.op.GetId(), pendBefore) && newIDsKnown(*fails, len(failsBefore), e.op.GetId(), pendBefore)
+//@ assert at "if err != nil {" [lemma-held] (forall k in pendBefore :: k in old(dom(r.pendingEntries))) && ranged[loopi-1].op.GetId() in old(dom(r.pendingEntries))
+//@ assert at "if err != nil {" [lemma-new-known] newIDsKnown(*oks, len(oksBefore), ranged[loopi-1].op.GetId(), pendBefore) && newIDsKnown(*fails, len(failsBefore), ranged[loopi-1].op.GetId(), pendBefore)
 //@ assert at "if err != nil {" [lemma-old-known] (forall i in old(len(*oks))..len(oksBefore) :: (*oks)[i].ID == op.GetId() || (*oks)[i].ID in old(dom(r.pendingEntries)))
 //@   && (forall i in old(len(*fails))..len(failsBefore) :: (*fails)[i].ID == op.GetId() || (*fails)[i].ID in old(dom(r.pendingEntries)))
 //@ assert at "if err != nil {" [lemma-known] newIDsKnown(*oks, old(len(*oks)), op.GetId(), old(dom(r.pendingEntries))) && newIDsKnown(*fails, old(len(*fails)), op.GetId(), old(dom(r.pendingEntries)))
